@@ -119,3 +119,46 @@ func zzH_C10_index() {
 	zzverif.Assert(len(l) <= 3, "no address listed twice")
 	zzverif.Reach("end")
 }
+
+// zzH_C10_copy_staking: pending staking records (final value, list of transaction hashes) and
+// pending relationships of a copy are equal to the original's and independent of them: both
+// sides then record another transaction, and each sees exactly its own.
+func zzH_C10_copy_staking() {
+	s := zzNewState()
+	d, v := zzAddr(7), zzValAddr(1)
+	n := zzverif.Choose("hashesBeforeCopy", 4) // 0..3 hashes on the record when the copy is taken
+	for i := 0; i < n; i++ {
+		s.AddStakingRecord(d, v, common.Hash{0x60 + byte(i)}, zzverif.Big("value", 64))
+	}
+	if zzverif.Bool("pendingRelationship") {
+		s.AddPendingRelationship(d, v)
+	}
+	cp := s.Copy()
+	zzverif.Reach("copied")
+	rec := func(x *StateDB) []common.Hash {
+		if r := x.GetStakingRecord(d, v); r != nil {
+			return append([]common.Hash(nil), r.TxHashes...)
+		}
+		return nil
+	}
+	before := rec(s)
+	zzverif.Assert(len(rec(cp)) == len(before) && s.GetStakingRecordValue(d, v).Cmp(cp.GetStakingRecordValue(d, v)) == 0 &&
+		s.PendingRelationshipExist(d, v) == cp.PendingRelationshipExist(d, v), "the copy's staking record equals the original's")
+	// both sides move on
+	first, second := s, cp
+	if zzverif.Bool("copyWritesFirst") {
+		first, second = cp, s
+	}
+	first.AddStakingRecord(d, v, common.Hash{0xA1}, big.NewInt(1))
+	second.AddStakingRecord(d, v, common.Hash{0xB2}, big.NewInt(2))
+	second.AddPendingRelationship(zzAddr(8), v)
+	r1, r2 := rec(first), rec(second)
+	ok := len(r1) == len(before)+1 && len(r2) == len(before)+1 && r1[len(before)] == (common.Hash{0xA1}) && r2[len(before)] == (common.Hash{0xB2})
+	for i := range before {
+		ok = ok && i < len(r1) && i < len(r2) && r1[i] == before[i] && r2[i] == before[i]
+	}
+	zzverif.Assert(ok, "each side's record holds the earlier hashes and exactly its own new one")
+	zzverif.Assert(first.GetStakingRecordValue(d, v).Cmp(big.NewInt(1)) == 0 && second.GetStakingRecordValue(d, v).Cmp(big.NewInt(2)) == 0, "each side's final value is its own")
+	zzverif.Assert(!first.PendingRelationshipExist(zzAddr(8), v) && second.PendingRelationshipExist(zzAddr(8), v), "a pending relationship added on one side does not show on the other")
+	zzverif.Reach("end")
+}
